@@ -67,6 +67,13 @@ def run(check: core.Check) -> None:
     # every program is also checked alone and twice in a row (repeated in-process check)
     for pid in progs:
         jobs.append((len(jobs), {"hashseed": rnd.choice(hashseeds), "pids": [pid, pid]}, progs))
+    # every ordered pair of variants of one family in one process (histories of closely related programs: caches keyed
+    # by values that compare equal must not leak one program's rendering into the other's)
+    for fam, pids in by_family.items():
+        for a in pids:
+            for b in pids:
+                if a != b:
+                    jobs.append((len(jobs), {"hashseed": rnd.choice(hashseeds), "pids": [a, b]}, progs))
     results = core.pmap(run_schedule, jobs, chunk=1)
     obs = []
     texts: dict[str, dict[str, str]] = {}
